@@ -3,6 +3,7 @@
 package main
 
 import (
+	"bytes"
 	"crypto"
 	"crypto/rsa"
 	"crypto/sha256"
@@ -327,6 +328,56 @@ func main() {
 					} else {
 						ln.Result = "invalid"
 					}
+				}
+			}
+			// the same partial signatures are used again: in the same subset, and - shifted by one player, so that the signs of the Lagrange
+			// coefficients change - in another qualified subset.  CombineSignShares must not have changed them.
+			if ln.Result == "valid" && len(pick) >= sc.K && sc.K >= 2 && sc.L > sc.K {
+				before := make([][]byte, len(parts))
+				for i := range parts {
+					before[i], _ = parts[i].MarshalBinary()
+				}
+				again := rsaLine{Ev: "rsa", L: sc.L, K: sc.K, Pick: pick, Bits: *bits, Cache: ln.Cache, Blind: ln.Blind, Order: "reused", Pad: ln.Pad}
+				var extra int
+				for c := 1; c <= sc.L; c++ {
+					used := false
+					for _, q := range pick {
+						used = used || q == c
+					}
+					if !used {
+						extra = c
+						break
+					}
+				}
+				var es trsa.SignShare
+				err := fmt.Errorf("every player already takes part")
+				if extra > 0 {
+					es, err = shares[extra-1].Sign(nil, &key.PublicKey, padded, false)
+				}
+				if err == nil {
+					parts2 := append(append([]trsa.SignShare{}, parts[1:]...), es) // drop the first player, add an unused one
+					again.Pick = append(append([]int{}, pick[1:]...), extra)
+					var sig []byte
+					oc := vlib.Safe(60*time.Second, func() { sig, err = trsa.CombineSignShares(&key.PublicKey, parts2, padded) })
+					h := sha256.Sum256(msg)
+					switch {
+					case oc.Bad():
+						again.Result, again.Note = "panic", oc.Panic
+					case err != nil:
+						again.Result, again.Note = "error", "second subset of the same partial signatures: "+err.Error()
+					case (ln.Pad == "pss" && rsa.VerifyPSS(&key.PublicKey, crypto.SHA256, h[:], sig, nil) == nil) || (ln.Pad != "pss" && rsa.VerifyPKCS1v15(&key.PublicKey, crypto.SHA256, h[:], sig) == nil):
+						again.Result = "valid"
+					default:
+						again.Result = "invalid"
+					}
+					for i := range parts {
+						if now, _ := parts[i].MarshalBinary(); !bytes.Equal(now, before[i]) && again.Result == "valid" {
+							again.Result, again.Note = "invalid", "CombineSignShares changed the caller's partial signatures"
+						}
+					}
+					mu.Lock()
+					o.Emit(again)
+					mu.Unlock()
 				}
 			}
 			mu.Lock()
